@@ -186,6 +186,15 @@ func Open(fileName string, opts *Options) (*AppendableFile, error) {
 			return nil, ErrCorruptedMetadata
 		}
 
+		fi, err := f.Stat()
+		if err != nil {
+			return nil, err
+		}
+
+		if int64(binary.BigEndian.Uint32(mLenBs)) > fi.Size()-4 {
+			return nil, ErrCorruptedMetadata
+		}
+
 		mBs := make([]byte, binary.BigEndian.Uint32(mLenBs))
 		_, err = r.Read(mBs)
 		if err != nil {
